@@ -172,7 +172,10 @@ Definition srv_step (lp dscp : Z) (socks : list (bytes * Z)) (listener sender : 
     end in
   let agree := (nsent =? 1) &&
     (agree_of (server_step macf revf keyf ntpf c qr oob) || agree_of (server_step macf revf keyf ntpf c qr [])) in
-  let oracle := C13_srv_ok (s_local_port c) (s_conn_port c) (s_fetcher c) socks sender qr (pv_mac q) (pv_rev q)
+  (* nsent = -1: the answer to the sentinel (a plain request whose SCION source is a harness
+     socket) arrived at that socket instead of at the previous hop *)
+  let oracle := negb (nsent =? -1) &&
+                C13_srv_ok (s_local_port c) (s_conn_port c) (s_fetcher c) socks sender qr (pv_mac q) (pv_rev q)
                   (map (fun o => mkSobs (fst o) (pv_rx (snd o)) (pv_mac (snd o))) obs) in
   (agree, oracle).
 
